@@ -88,6 +88,7 @@ class Real(object):
         self.persist_points = None   # None | "all" | set of call ordinals after which to persist+restore
         self.ncalls = 0
         self.reser = []              # (digest before, digest after re-serialising the restored conductor)
+        self.use_delayed = False     # an action offered with a delay is first reported `delayed`, later `running`
 
     # ---- snapshots ---------------------------------------------------------------------------
     def clone(self):
@@ -112,6 +113,7 @@ class Real(object):
         n.started = self.started
         n.persist_points, n.ncalls, n.reser = self.persist_points, self.ncalls, list(self.reser)
         n.keep_acc = set(self.keep_acc)
+        n.use_delayed = self.use_delayed
         return n
 
     # ---- projection --------------------------------------------------------------------------
@@ -293,8 +295,9 @@ class Real(object):
             return rs[min(self.vis_of.get((task, route), 0), len(rs) - 1)]
         return (ti + 1) * 1000 + v * 10 + (item + 1)
 
-    def start(self, task, route, item=-1):
+    def start(self, task, route, item=-1, delay=0):
         key = (task, route, item)
+        first = statuses.DELAYED if (self.use_delayed and isinstance(delay, int) and delay > 0) else statuses.RUNNING
         rec = self.c.get_task_state_entry(task, route)
         fresh = rec is None or rec.get("status") in statuses.COMPLETED_STATUSES + ["retrying", None]
         if fresh:
@@ -307,11 +310,11 @@ class Real(object):
             for k in [k for k in self.acts if k[0] == task and k[1] == route]:
                 del self.acts[k]
         if item >= 0:
-            ev = events.TaskItemActionExecutionEvent(item, statuses.RUNNING)
+            ev = events.TaskItemActionExecutionEvent(item, first)
         else:
-            ev = events.ActionExecutionEvent(statuses.RUNNING)
-        self.acts[key] = "running"
-        st = self._call(self.mkcall("start", task, route, item, "running"),
+            ev = events.ActionExecutionEvent(first)
+        self.acts[key] = first
+        st = self._call(self.mkcall("start", task, route, item, first),
                         lambda: self.c.update_task_state(task, route, ev))
         if st["ret"] != "ok":
             self.acts.pop(key, None)
@@ -357,9 +360,9 @@ class Real(object):
                         self.start(t, r, -1)
                 else:
                     for i in o["items"]:
-                        self.start(t, r, i)
+                        self.start(t, r, i, o["delay"])
             else:
-                self.start(t, r, -1)
+                self.start(t, r, -1, o["delay"])
         return q
 
     def boot(self):
@@ -387,6 +390,8 @@ class Real(object):
                     if f == "P" and (self.cyc.get((t, r, i)) or canceled):
                         continue
                     out.append([t, r, i, FATE[f]])
+            elif st == "delayed":
+                out.append([t, r, i, "running"])          # the delay has passed
             elif st == "pending":
                 for f in fates:
                     if f in "sf":
